@@ -456,6 +456,110 @@ def _try_uf_abstraction(formulas, timeout_s):
         return False
 
 
+NL_MUL = z3.Function("nl!mul", z3.RealSort(), z3.RealSort(), z3.RealSort())
+NL_MULI = z3.Function("nl!muli", z3.IntSort(), z3.IntSort(), z3.IntSort())
+NL_INV = z3.Function("nl!inv", z3.RealSort(), z3.RealSort())
+NL_POW = z3.Function("nl!pow", z3.RealSort(), z3.RealSort(), z3.RealSort())
+
+
+def generalise_products(formulas):
+    """Generalisation step: multiplication of non-numeral factors and the reciprocal of a non-numeral are replaced by
+    *uninterpreted* functions (x*y -> nl!mul(x,y) with the factors in a canonical order, x/y -> nl!mul(x, nl!inv(y)),
+    1/y -> nl!inv(y)); before that, if-then-else is lifted out of products and quotients.  Every model of the original
+    formulas is a model of the abstracted ones (interpret nl!mul, nl!inv as * and 1/.), so if the abstracted
+    conjunction is unsat, the original is unsat (universal generalisation)."""
+    cache = {}
+    comm = {}
+
+    def nlmul(a, b):
+        r = NL_MUL(a, b)
+        if not a.eq(b):
+            comm[r.get_id()] = r == NL_MUL(b, a)       # commutativity instance (true of *)
+        return r
+
+    def is_num(e):
+        return z3.is_int_value(e) or z3.is_rational_value(e)
+
+    def real(e):
+        return z3.ToReal(e) if z3.is_int(e) else e
+
+    factors = {}      # id of an abstracted product -> (term, its sorted non-numeral factors)   (flattening: products are AC)
+
+    def mk_mul(kids, sort, budget=[0]):
+        for n, k in enumerate(kids):
+            if z3.is_app(k) and k.decl().kind() == z3.Z3_OP_ITE and budget[0] < 20000:
+                budget[0] += 1
+                c, x, y = k.children()
+                return z3.If(c, mk_mul(kids[:n] + [x] + kids[n + 1:], sort), mk_mul(kids[:n] + [y] + kids[n + 1:], sort))
+        flat = []
+        for k in kids:
+            if k.get_id() in factors:
+                flat.extend(factors[k.get_id()][1])
+            elif z3.is_app(k) and k.decl().kind() == z3.Z3_OP_MUL and k.num_args() == 2 and is_num(k.arg(0)) and k.arg(1).get_id() in factors:
+                flat.append(k.arg(0))
+                flat.extend(factors[k.arg(1).get_id()][1])
+            else:
+                flat.append(k)
+        nums = [k for k in flat if is_num(k)]
+        rest = sorted([k for k in flat if not is_num(k)], key=lambda t: t.get_id())
+        if not rest:
+            r = None
+        elif sort == z3.IntSort():
+            r = rest[0]
+            for k in rest[1:]:
+                r = NL_MULI(r, k)
+        else:
+            r = real(rest[0])
+            for k in rest[1:]:
+                r = nlmul(r, real(k))
+        if r is not None and len(rest) > 1:
+            factors[r.get_id()] = (r, rest)
+        for nm in nums:
+            r = nm if r is None else nm * r
+        return r
+
+    def mk_inv(y, budget=[0]):
+        if z3.is_app(y) and y.decl().kind() == z3.Z3_OP_ITE and budget[0] < 20000:
+            budget[0] += 1
+            c, a, b = y.children()
+            return z3.If(c, mk_inv(a), mk_inv(b))
+        if is_num(y):
+            return 1 / real(y)
+        return NL_INV(real(y))
+
+    def walk(e):
+        i = e.get_id()
+        r = cache.get(i)
+        if r is not None:
+            return r
+        if z3.is_quantifier(e) or not z3.is_app(e) or e.num_args() == 0:
+            cache[i] = e
+            return e
+        kids = [walk(c) for c in e.children()]
+        k = e.decl().kind()
+        if k == z3.Z3_OP_MUL:
+            r = mk_mul(kids, e.sort())
+        elif k == z3.Z3_OP_DIV:
+            if is_num(kids[1]):
+                r = kids[0] / kids[1]
+            elif is_num(kids[0]) and z3.simplify(real(kids[0]) == 1).eq(z3.BoolVal(True)):
+                r = mk_inv(kids[1])
+            else:
+                r = mk_mul([real(kids[0]), mk_inv(kids[1])], z3.RealSort())
+        elif k == z3.Z3_OP_POWER:
+            r = NL_POW(real(kids[0]), real(kids[1]))
+        elif k == z3.Z3_OP_TO_REAL and z3.is_int_value(kids[0]):
+            r = z3.RealVal(kids[0].as_long())
+        else:
+            r = e.decl()(*kids)
+        cache[i] = r
+        return r
+    import sys
+    sys.setrecursionlimit(max(sys.getrecursionlimit(), 50000))
+    out = [walk(f) for f in formulas]
+    return out + list(comm.values())[:4000]
+
+
 def prove(assumptions, goal, timeout_s=10, opts=None, rounds=2):
     """PROVED iff assumptions ∧ axiom-instances ∧ ¬goal is unsat"""
     t0 = time.time()
@@ -505,6 +609,17 @@ def prove(assumptions, goal, timeout_s=10, opts=None, rounds=2):
         # opt-in accelerator: nonlinear operators as uninterpreted functions (sound for `unsat`)
         if _try_uf_abstraction(formulas, min(timeout_s, (opts or {}).get("uf_abstraction_timeout", 5))):
             return Verdict(PROVED, "z3-5.1(nonlinear-terms-as-UF)", (time.time() - t0) * 1000)
+    if (opts or {}).get("abstract_nl"):
+        try:
+            fa = generalise_products(formulas)
+            s0 = z3.Solver()
+            s0.set("timeout", int(min(timeout_s, 20) * 1000))
+            for f in fa:
+                s0.add(f)
+            if s0.check() == z3.unsat:
+                return Verdict(PROVED, "z3-5.1(products-generalised-to-UF)", (time.time() - t0) * 1000)
+        except (z3.Z3Exception, RecursionError):
+            pass
     res, model, backend, ms = check_formulas(formulas, timeout_s)
     if res == "unsat":
         return Verdict(PROVED, backend, ms)
